@@ -122,6 +122,26 @@ pub fn restart_json_include_opts(world: &mut World, stats: &mut RunStats, json_r
 }
 
 pub fn restart_csv(world: &mut World, stats: &mut RunStats) -> (ExecResult, Vec<Violation>) {
+    restart_csv_opts(world, stats, false)
+}
+
+/// the save half of a JSON restart with stand-off files: the store lives on
+pub fn checkpoint_json_include(world: &mut World) -> ExecResult {
+    let path = "/sim/jcheckpoint/store.store.stam.json".to_string();
+    let r = catch(|| -> Result<(), String> {
+        assign_standoff_files(world, false)?;
+        world.store.set_filename(&path);
+        world.store.save().map_err(|e| format!("{}", e))
+    });
+    match r {
+        Ok(Ok(())) => ExecResult::Ok(None),
+        Ok(Err(e)) => ExecResult::Err(format!("save: {}", e)),
+        Err(p) => ExecResult::Panic(format!("save: {}", p)),
+    }
+}
+
+/// `save_only`: a checkpoint - the files are written, the store is not reloaded
+pub fn restart_csv_opts(world: &mut World, stats: &mut RunStats, save_only: bool) -> (ExecResult, Vec<Violation>) {
     let mut violations = Vec::new();
     let n = world.restart_count;
     // one place for the whole run, as a user would: files of unchanged items are not rewritten
@@ -171,6 +191,9 @@ pub fn restart_csv(world: &mut World, stats: &mut RunStats) -> (ExecResult, Vec<
         Ok(Ok(())) => {}
         Ok(Err(e)) => return (ExecResult::Err(format!("save: {}", e)), violations),
         Err(p) => return (ExecResult::Panic(format!("save: {}", p)), violations),
+    }
+    if save_only {
+        return (ExecResult::Ok(None), violations);
     }
     let files = world.fs.snapshot();
     if std::env::var("VERIF_DUMP_FS").is_ok() {
